@@ -1,7 +1,9 @@
+import copy
 from typing import Dict, List
 
 import numpy as np
 
+from classy_blocks.construct.edges import Project
 from classy_blocks.construct.flat.face import Face
 from classy_blocks.construct.flat.sketches.disk import QuarterDisk
 from classy_blocks.construct.operations.loft import Loft
@@ -106,6 +108,31 @@ class EighthSphere(Shape):
         normal = f.unit_vector(np.asarray(normal))
 
         self.lofts = eighth_sphere_lofts(center_point, radius_point, normal, self.geometry_label, diagonal_angle)
+
+    def __deepcopy__(self, memo):
+        """A copy is a different sphere with its own geometry (and label),
+        so everything that is projected to the original's sphere must be pointed to the new one"""
+        duplicate = self.__class__.__new__(self.__class__)
+        memo[id(self)] = duplicate
+        duplicate.__dict__ = copy.deepcopy(self.__dict__, memo)
+
+        def rename(label):
+            return duplicate.geometry_label if label == self.geometry_label else label
+
+        for operation in duplicate.operations:
+            operation.side_projects = [rename(label) for label in operation.side_projects]
+
+            for face in (operation.bottom_face, operation.top_face):
+                face.projected_to = rename(face.projected_to)
+
+                for point in face.points:
+                    point.projected_to = [rename(label) for label in point.projected_to]
+
+            for edge in [*operation.bottom_face.edges, *operation.top_face.edges, *operation.side_edges]:
+                if isinstance(edge, Project):
+                    edge.label = [rename(label) for label in edge.label]
+
+        return duplicate
 
     ### Chopping
     def chop_axial(self, **kwargs):
